@@ -1500,6 +1500,8 @@ class Dir(FileSet):
             rel_path = self.rel_path(src_file.path)
             dest_file = dest_dir.file(rel_path)
             src_file.copy_to(dest_file, skip_if_exists=skip_if_exists)
+        # The destination's contents changed: refresh its hash, as File.copy_to does.
+        dest_dir.update_hash()
         return dest_dir
 
     def shell_copy_to(self, dest_path: str, as_mount: bool = False) -> str:
